@@ -136,20 +136,23 @@ CHECKS['C13'] = dict(
          'update is skipped. Whether the load can drive the motor also depends on magnitudes: not decided.',
     design='4/C13', engine='sa.solver_ir + sa.extract.truth_table')
 CHECKS['C14'] = dict(
-    technique='structural recognition of PWMControl.apply_rules (one apply() per rule, identity count) + symbolic evaluation of '
-              'its decision part over count/chosen atoms; exhaustive breakpoint table of the min/max saturation term; setter '
-              'range and who-may-write; ' + SOLVER_T + 'exactly one unconditional apply_rules per controlled instant',
-    text='apply_rules yields default 1 for no proposal, the clipped proposal for exactly one, ValueError for two or more (a '
-         'proposal of 0 counts); saturation equals clip to [-1,1] on every region; the pwm setter rejects values outside [-1,1] and '
-         'is the only writer; the solver applies control once per instant, never skipped, before the motor law and recorder; no '
-         'handler can swallow the conflict error.', design='4/C14', engine='sa.sx + sa.solver_ir')
+    technique='abstract interpretation of PWMControl.apply_rules over finite rule-set configurations (0..4 rules, every subset '
+              'applicable, a literal-0 proposal; comprehensions, match statements and loops unrolled over the concrete rule list) '
+              'with the single proposal symbolic and a breakpoint table of the resulting clip term; setter range guard incl. its '
+              'IEEE/NaN clause and who-may-write; ' + SOLVER_T + 'exactly one unconditional apply_rules per controlled instant',
+    text='apply_rules yields default 1 for no proposal, the clipped proposal for exactly one (wherever it sits), ValueError for two '
+         'or more (a proposal of 0 counts); the clip equals max(-1, min(1, p)) on every region; the pwm setter rejects values outside '
+         '[-1,1] and NaN and is the only writer; the solver applies control once per instant, never skipped, before the motor law '
+         'and recorder; no handler can swallow the conflict error.', design='4/C14', engine='sa.sx + sa.solver_ir')
 CHECKS['C20'] = dict(
-    technique='AST idiom match of the chain walk and rejections in Powertrain.__init__; symbolic evaluation of the self-locking '
-              'scan over the abstract element tuple; read-only/who-may-write census of the two private fields',
-    text='The element tuple is built by following drives from the motor until None with nothing else able to stop or alter the '
-         'walk; unconnected motor and duplicate names are rejected before assembly; self_locking is True exactly when some '
-         'element is a WormGear flagged self-locking; elements and self_locking are setter-less properties returning fields that '
-         'nothing outside __init__ writes.', design='4/C20', engine='ast + sa.solver_ir')
+    technique='abstract interpretation of Powertrain.__init__ on every concrete chain of 2..5 elements (spur / self-locking worm / '
+              'reversible worm, with and without back-links; while/for/comprehensions unrolled over the concrete chain) and on '
+              'every equal/distinct name pattern; symbolic evaluation of the self-locking scan over the abstract element tuple; '
+              'read-only/who-may-write census of the two private fields',
+    text='The stored tuple is exactly the drives-chain from the motor, in order; unconnected motor, non-motor and duplicate names '
+         '(adjacent or not) are rejected before assembly; self_locking is True exactly when some element is a WormGear flagged '
+         'self-locking; elements and self_locking are setter-less properties returning fields that nothing outside __init__ '
+         'writes. Chains longer than 5 are covered by the symbolic scan rule only.', design='4/C20', engine='sa.sx + sa.solver_ir')
 
 CHECKS['C16'] = dict(
     technique=SOLVER_T + 'placement and exit analysis of the stop check per body path; symbolic evaluation of '
